@@ -36,6 +36,9 @@ RULE = ("cases are histories `C16 <item> <stream> ; op ; op …` on a vector of 
         "numbers and small multiples of them, primes, round decimal counts (2 .. 4181 quick, .. 65536 thorough) and random counts; two new explicit "
         "`own` patterns (round-robin over 2..21 live treaps; appends with scratch one-element treaps created and dropped in between). "
         "Wave 3: BOTH BUILD PROFILES — the same generators in smaller numbers also run against the debug build of rlib (cfg(debug_assertions), debug_assert!). "
+        "Wave 4 (shared with C03, seeded C03_m13): the operation language has `inserttag` / `moveroot` (insert_at of an item that carries a pending "
+        "modification: hand-built, or the root item of a modified one-element treap taken out of / cloned off the public `root` field); heap order and "
+        "shapes are checked after them like after every other operation (`stepP` covers them; step_heap / step_inv / step_prios proved). "
         "non-trivial = distinct history that creates at least 3 nodes")
 ASSUMPTIONS = [
     "the Lean model of rlib_treap (Model/Treap.lean) is hand-written; it is tied to the code by running both on the same histories",
